@@ -193,6 +193,41 @@ def run_real(case, text, debug, witness_bits):
     return _W["run"].ask(req)
 
 
+RAW_SAMPLE = int(os.environ.get("VERIF_RAW_SAMPLE", "7"))  # every n-th small case is re-decided on un-normalised terms
+
+
+def _raw_recheck(case, text, res):
+    """Re-decide the plain-build equivalence with the rewriting rules switched off (terms.RAW): the solver sees the
+    un-normalised goal.  `sat` here while the normalised goal was unsat means a rewriting rule is unsound."""
+    if case.prog is None or case.mut or case.wit_fixed or res.get("nodes", 0) > 260 or res.get("evals", 0) > 6000:
+        return
+    h = int(hashlib.sha256(case.cid.encode()).hexdigest()[:6], 16)
+    if RAW_SAMPLE <= 0 or h % RAW_SAMPLE:
+        return
+    T.reset()
+    T.RAW[0] = True
+    try:
+        d = _W["dump"].ask({"text": text, "debug": False, "args": _arg_request(case)})
+        if not d.get("ok"):
+            return
+        m = M.Machine(M.Program(d), interpret=case.interpret)
+        f_impl = m.run()
+        if m.evals > 20000:
+            return
+        spec = S.Spec(_witness_provider(m, d, []), args=_spec_args(case), interpret=case.interpret)
+        f_spec = spec.run(case.prog)
+        goal = T.xor(f_impl, f_spec)
+        r, model = _W["solver"].check(goal, want_model=False, timeout_s=30)
+        res["raw_" + r] = res.get("raw_" + r, 0) + 1
+        if goal.op == "c":
+            res["raw_trivial"] = res.get("raw_trivial", 0) + 1
+        if r == "sat":
+            raise Broken("un-normalised goal is satisfiable although the normalised goal was refuted: a rewriting rule of terms.py is unsound (case %s)" % case.cid)
+    finally:
+        T.RAW[0] = False
+        T.reset()
+
+
 def check_case(case):
     """returns a result dict; never raises for expected situations"""
     t_start = time.time()
@@ -202,7 +237,10 @@ def check_case(case):
     s0 = _W["solver"].time
     try:
         T.reset()
+        T.RAW[0] = False
         res.update(_check_case(case, res))
+        if res["status"] == "held" and res.get("text"):
+            _raw_recheck(case, res["text"], res)
     except M.Inconclusive as e:
         res["status"] = "inconclusive"
         res["detail"] = "machine: %s" % e
